@@ -344,6 +344,16 @@ func blockedSenderSession(c *hx.Ctx, k int, r *rand.Rand, domain uint32) {
 		}
 		if m.SetID != 2 && len(m.Body) >= 4 && refipfix.GU(m.Body[:4]) == marker {
 			found = true
+			if b.t1.Before(resumedAt) {
+				// the second goroutine was not held up after all (on a loaded machine "no progress for 300 ms" does
+				// not prove that the first one sits in Write): the scenario did not take place, only the bracket holds
+				c.Add("blocked_sender_sessions_where_the_second_sender_was_not_held_up", 1)
+				if int64(m.ExportTime) < b.t0.Unix() || int64(m.ExportTime) > b.t1.Unix() {
+					c.Violation(k, "export-time", fmt.Sprintf("export time %d outside the send interval [%d,%d]", m.ExportTime, b.t0.Unix(), b.t1.Unix()), nil)
+					return
+				}
+				continue
+			}
 			if int64(m.ExportTime) < resumedAt.Unix() || int64(m.ExportTime) > b.t1.Unix() {
 				c.Violation(k, "export-time:blocked-sender", fmt.Sprintf("the message of the second goroutine carries export time %d; it was sent between %d (the collector resumed reading; the first goroutine was stuck in Write until then) and %d (its SendSet returned); its SendSet call began at %d", m.ExportTime, resumedAt.Unix(), b.t1.Unix(), b.t0.Unix()), nil)
 				return
